@@ -27,7 +27,8 @@ PROP = {
                   "Unicode IDN labels, punycode, ClientID, client name, address) and all ten response_status values; "
                   "pages must add up to the unpaged sequence. Hostile limit / offset / older_than / search / "
                   "response_status values and malformed query strings must give 200 or 400 without a panic, and a 200 "
-                  "answer must be sound. Exploration: no absence claim.",
+                  "answer must be sound. Exploration: no absence claim."
+                  " One action clears the log right after the queries that filled the memory buffer, before the flush they started can run; a flush flag that never clears afterwards is a failure.",
     "level_note": "White-box only to drive: Add is called with the flush lock held so that the model's instant replaces "
                   "time.Now() before anything can read the entry, and a flush started by Add is awaited before the next "
                   "step (the excluded 'flush pending' window is never entered; the number of awaited flushes is "
